@@ -65,7 +65,9 @@ RX_OPS = ['', '?', '*', '+', '{2}', '{1,2}', '{2,}']
 RX_TRICKY = ['(a*)*b', 'a{0}b', '(a|b)*abb', '[^a][^b]', '[^a]*a', '.*', '.+x', '(ab|a)(c|bc)', 'a?a?aa', '(a|ab)(c|bcd)(d*)', '\\w+@\\w+', '[\\w\\-]+', '[^\\d\\s]x',
              '(\\.|[^"\\\\])*"', 'x[a-c\\d]{2,3}y', '(a{2}){2}', '((a))', '(a|b|c|d)', 'a|b*|c+', '[a-a]', '\\n\\t\\r', '.{3}', '(.a){2}', '[^ab]|a', 'ab*[^c]d', '\\S\\s\\S', '\\D\\W',
              '[+-\\/]', '[\\--0]x', '[\\/-9]+', '[Z-\\]]', '[^*-\\/x]', '[\\]-a\\w]', '[\\\\-a]', '[!-\\-]y', '[\\^-z]', 'a[\\-\\]]b']
-RX_BIN = ['61', '61 62+', '(61|62)*63', '[61-63]{2}', '[^00]', '.', '00 [10-15]+|(44 56? 12)', 'ff.{2}', '[^61 62]63', '.*00']
+RX_BIN = ['61', '61 62+', '(61|62)*63', '[61-63]{2}', '[^00]', '.', '00 [10-15]+|(44 56? 12)', 'ff.{2}', '[^61 62]63', '.*00',
+          # two inverted sets whose members are disjoint (only the binary form can exclude 128 bytes at once): both must keep their own members
+          '[^00-7F]|[^80-FF]', '[^00-7F]01|[^80-FF]02', '([^00-7F]61|[^80-FF]62)+', '[^00-7F][^80-FF]|[^80-FF]63']
 
 
 def _rx_prog(rx, binary=False, k=0):
@@ -136,6 +138,24 @@ def ambig_programs():
                 src = DECLS + "parser { " + ctx.format(a=sa, b=sb) + ' ";"; }\n'
                 out.append({"name": f"ambig/{k}", "src": src, "args": ["-feof-support", "-fyield-support"], "path": None})
                 k += 1
+    return out + ambigif_programs()
+
+
+def ambigif_programs():
+    """a statement whose end is found by lookahead, followed by a condition whose branches begin differently (a byte that one branch
+    excludes explicitly may still begin the other one): if / else, if / elif / else and a nested if"""
+    out = []
+    k = 0
+    branch = ['/[^a]/', '/[^b]/', '/[^ab]x/', '"ab"', '/[bc]/', '/./', '/a?b/', '/[^a]*c/']
+    for pre in ('/a+/;', '/[^x]*/;', 'optional { "a"; }', '/b*c?/;'):
+        for a in branch:
+            for b in branch:
+                for ctx in ("if n == 1 {{ {a}; }} else {{ {b}; }}", "if n == 1 {{ {a}; }} elif n == 2 {{ {b}; }} else {{ {a}; }}", "if n == 1 {{ if n == 3 {{ {a}; }} else {{ {b}; }} }} else {{ {a}; }}"):
+                    if ctx.count("{a}") > 1 and a == b:
+                        continue
+                    src = DECLS + "parser { " + pre + " " + ctx.format(a=a, b=b) + ' "z"; }\n'
+                    out.append({"name": f"ambigif/{k}", "src": src, "args": ["-feof-support", "-fyield-support"], "path": None})
+                    k += 1
     return out
 
 
